@@ -106,6 +106,11 @@ def nameKey (n m : Int) : Int × Int × Int × Int :=
   else if m = 0 then (if n = 2 then (2, 0, 0, 4) else (3, sphericalAccessor n, 0, 4))
   else (4, nameAccessor n m, iabs m, (if m % 2 = 1 then 0 else 2) + (if 0 ≤ m then 0 else 1))
 
+/-- number of blank-separated words of a name, by kind (`Piston`, `Tilt X`, `Defocus`, `<ordinal> Spherical`,
+    `<ordinal> <column word> <suffix>`); the ordinal and column words contain no blank (`names_words_have_no_blank`) -/
+def nameWords (kind : Int) : Int :=
+  if kind = 0 then 1 else if kind = 1 then 2 else if kind = 2 then 1 else if kind = 3 then 2 else 3
+
 /-- key under which `zernikes_to_magnitude_angle_nmkey` collects the `+m` and `-m` terms -/
 def magangKey (n m : Int) : Int × Int := (n, iabs m)
 
